@@ -33,6 +33,7 @@ type (
 	DirEntry  = os.DirEntry
 	PathError = os.PathError
 	LinkError = os.LinkError
+	SyscallError = os.SyscallError
 	Signal    = os.Signal
 )
 
@@ -47,6 +48,9 @@ const (
 	O_EXCL            = os.O_EXCL
 	O_SYNC            = os.O_SYNC
 	O_TRUNC           = os.O_TRUNC
+	SEEK_SET          = os.SEEK_SET
+	SEEK_CUR          = os.SEEK_CUR
+	SEEK_END          = os.SEEK_END
 	ModePerm          = os.ModePerm
 	ModeDir           = os.ModeDir
 )
@@ -100,9 +104,13 @@ func ReadDir(p string) ([]DirEntry, error) {
 }
 func Open(p string) (*File, error) { return os.Open(p) }
 func OpenFile(p string, flag int, perm FileMode) (*File, error) {
-	pre("OpenFile", p)
+	op := "OpenFile"
+	if flag&os.O_CREATE != 0 {
+		op = "OpenFile+create" // brings a new name into existence (or truncates): a crash point of its own
+	}
+	pre(op, p)
 	f, err := os.OpenFile(p, flag, perm)
-	post("OpenFile", p)
+	post(op, p)
 	return f, err
 }
 func Create(p string) (*File, error) {
